@@ -15,3 +15,39 @@ def add_bounded(rep: core.Report, ctx: core.Ctx, pid: str):
         raise
     sub = mod.run_bounded(ctx)
     rep.add(sub)
+
+
+PYVC_EXTRACTION = [
+    "pyvc re-parses /repo/fggs/*.py with `ast` on every run (no cached or hand-written copy of the code)",
+    "dropped: comments, docstrings, type annotations, the text of exception messages and f-strings (modelled as uninterpreted functions of their arguments), __str__/to_string/depict",
+    "interpreted specially: @dataclass(frozen=True) classes NodeLabel/EdgeLabel/Node/Edge as algebraic datatypes (== structural; their __init__ bodies are executed symbolically to build the value), @property (inlined), object.__setattr__ inside frozen __init__",
+    "callees without a modular contract are inlined (their loops use the invariants of their own sidecar contract)",
+]
+PYVC_ASSUMPTIONS = [
+    "pyvc: distinct object-typed parameters do not alias; containers stored in object fields are not shared between objects at entry",
+    "pyvc: dict / set iteration order is an arbitrary enumeration fixed per loop (proofs hold for every order)",
+    "pyvc: id(obj) of a new object is an integer that is not the id of any object alive (ghost predicate alive); ids of nodes/edges stored in a graph are alive when the contract requires nodes_alive",
+    "pyvc: hash() is consistent with == for keys (str, ids, frozen dataclasses, hashable domain values)",
+    "pyvc: str is an uninterpreted sort with equality; string literals are pairwise distinct",
+    "pyvc: quantified VCs are discharged by z3's E-matching/MBQI under a deterministic rlimit, then cvc5; `unknown` is never reported as proved",
+]
+PYVC_TRUSTED = ["vf/pyvc symbolic executor and its encoding of Python values (sorts.py) -- validated by seeded code mutants and false-postcondition canaries, not verified",
+                "z3 5.1 / cvc5 1.0.3"]
+
+
+def add_pyvc(rep: core.Report, ctx: core.Ctx, pid: str, files):
+    """Verify all sidecar contracts tagged with property pid."""
+    import os
+    from vf.pyvc.verify import verify_contracts
+    paths = [os.path.join(core.VERIF, "contracts", f) for f in files]
+    obs, funcs = verify_contracts(paths, prop=pid, jobs=ctx.jobs)
+    rep.obligations += obs
+    for f in funcs:
+        if f not in rep.functions_under_contract: rep.functions_under_contract.append(f)
+    for x in PYVC_EXTRACTION:
+        if x not in rep.extraction: rep.extraction.append(x)
+    for x in PYVC_ASSUMPTIONS:
+        if x not in rep.assumptions: rep.assumptions.append(x)
+    for x in PYVC_TRUSTED:
+        if x not in rep.trusted_base: rep.trusted_base.append(x)
+    return obs
